@@ -192,6 +192,33 @@ def work_history(bins, seed, idx, nops, nobs_cap, tmp):
                         bad.append((sig, "[%s, -f %s, dirt=%s] %s" % (via, fmt, kind, why),
                                     dict(seed=seed, idx=idx, nops=nops, ops=list(repo.ops), fmt=fmt, dirt=kind, via=via)))
             repo.clean()
+        # a linked worktree (its .git is a *file*) checked out at an arbitrary commit is a checkout like any other
+        if repo is not None and rng.random() < 0.35 and nobs > 0:
+            import subprocess as _sp
+            cid = rng.choice(repo.commits)["id"]
+            wt = os.path.join(os.path.dirname(path), "linked")
+            rr = _sp.run([core.REAL_GIT, "-C", repo.path, "worktree", "add", "-q", "--detach", wt, repo.commits[cid]["sha"]], env=repo.env, capture_output=True)
+            if rr.returncode == 0:
+                saved = (repo.head, repo.path)
+                repo.head, repo.path = ("detached", cid), wt
+                try:
+                    fmt = rng.choice(FORMATS)
+                    kind = rng.choice(["clean", "clean", "untracked", "modified"])
+                    dirty = repo.make_dirty(kind)
+                    obs_p = observe_probe(pr, repo, fmt)
+                    obs_b = observe_binary(bins, repo, fmt)
+                    nobs += 1
+                    st("observations")
+                    st("linked_worktree_observations")
+                    for via, obs in (("probe", obs_p), ("binary", obs_b)):
+                        if obs.get("timeout"):
+                            continue
+                        for sig, why in judge(repo, fmt, dirty, obs, via):
+                            if len(bad) < 12:
+                                bad.append((sig, "[linked worktree at c%d; %s, -f %s, dirt=%s] %s" % (cid, via, fmt, kind, why),
+                                            dict(seed=seed, idx=idx, nops=nops, ops=list(repo.ops) + ["worktree add --detach c%d" % cid], fmt=fmt, dirt=kind, via=via)))
+                finally:
+                    repo.head, repo.path = saved
     finally:
         if repo is not None:
             shutil_rm(os.path.dirname(path))
